@@ -81,8 +81,8 @@ def a_of_sec (s : Num) : Num :=
   -- degrees = degrees % 360
   let degrees : Int := imod dm.1 360
   let minutes : Int := dm.2
-  -- deg = sign * (de + mi / 60.0 + se / 3600.0)
-  sign * (ofInt degrees + ofInt minutes / 60.0 + seconds / 3600.0)
+  -- deg = sign * (de + mi / 60.0 + se / 3600.0); return Angle.reduce_deg(deg)      (after fix 05d4048)
+  a_reduce (sign * (ofInt degrees + ofInt minutes / 60.0 + seconds / 3600.0))
 
 /-! ### Conversions (Coordinates.py:924-1220) -/
 
